@@ -1,15 +1,20 @@
-(* C05 -- attribute values are normalised per XML 1.0 3.3.3: the attribute machine
-   (push_from_attr / push_raw as driven by _normalize_attribute) against Spec/Text.v.
-   Statements pinned here; proofs in Proofs/TextMachine.v. *)
-From Coq Require Import List NArith Bool.
+(* C05 -- attributes: exact set, source order, values normalised per XML 1.0 3.3.3.
+   (1) the attribute machine (push_from_attr / push_raw as driven by _normalize_attribute) against
+   Spec/Text.v, at top level and inside entity values, and on the model's normalize_attribute;
+   (2) a namespace declaration is never stored as an attribute, attributes are stored in source order,
+   nothing dropped or duplicated, expanded names pairwise distinct, namespace indices as resolved.
+   Statements are pinned here (copied verbatim from the proof files by tools/pin_props.py);
+   each is re-proved by `exact` and followed by Print Assumptions. *)
+From Coq Require Import Ascii String.
+From Coq Require Import List NArith Bool PeanoNat Sorted.
 Import ListNotations.
-From RX.Model Require Import Base Stream Builder Parse.
-From RX.Spec Require Import Text.
 From RX Require Import Generated.
-From RX.Model Require Import Tokenizer Doc.
+From RX.Model Require Import Base CharClass Stream Tokenizer Doc Builder Parse Api.
+From RX.Spec Require Import Text.
 From RX.Proofs Require Import TextMachine AttrListProofs.
 Open Scope N_scope.
 
+(* ---- Proofs/TextMachine.v ---- *)
 Theorem C05_attr_chunks_normalise :
   forall cs t,
   push_attr_chunks false cs tb_new = Some t ->
@@ -29,24 +34,7 @@ Theorem C05_attr_chunks_in_entity :
 Proof. exact attr_chunks_in_entity. Qed.
 Print Assumptions C05_attr_chunks_in_entity.
 
-(* the same, on the model's own function: a top-level attribute value whose chunks contain no
-   general entity reference is normalised to norm_attr_chunks *)
-Theorem C05_normalize_attribute_chunks_top :
-  forall (text : bytes) (value : slice) (c : context) (s0 : Stream.stream) (cs : list chunk),
-  existsb (fun x => (x =? 38) || (x =? 9) || (x =? 10) || (x =? 13)) (slice_bytes text value) = true ->
-  stream_from_substr text (sl_start value) (sl_end value) = Ok s0 ->
-  areads text false s0 cs ->
-  (0 <? ld_depth (c_ld c)) = false ->
-  normalize_attribute text value c = OutOfFuel \/
-  normalize_attribute text value c =
-    (if valid_utf8_b (norm_attr_chunks cs)
-     then Ok (Doc.Owned (norm_attr_chunks cs), set_ld c (c_ld c))
-     else Panic P_unwrap).
-Proof. exact normalize_attribute_chunks_top. Qed.
-Print Assumptions C05_normalize_attribute_chunks_top.
-
-
-(* ---- exact set, source order, no declaration among the attributes (Proofs/AttrListProofs.v) ---- *)
+(* ---- Proofs/AttrListProofs.v ---- *)
 Theorem C05_process_attribute_classifies :
   forall text r qn eq prefix local value c c',
   process_attribute text r qn eq prefix local value c = Ok c' ->
@@ -117,3 +105,20 @@ Theorem C05_resolve_attributes_namespace :
           (c_cur_attrs c) new.
 Proof. exact resolve_attributes_namespace. Qed.
 Print Assumptions C05_resolve_attributes_namespace.
+
+
+(* the same, on the model's own function: a top-level attribute value whose chunks contain no
+   general entity reference is normalised to norm_attr_chunks *)
+Theorem C05_normalize_attribute_chunks_top :
+  forall (text : bytes) (value : slice) (c : context) (s0 : Stream.stream) (cs : list chunk),
+  existsb (fun x => (x =? 38) || (x =? 9) || (x =? 10) || (x =? 13)) (slice_bytes text value) = true ->
+  stream_from_substr text (sl_start value) (sl_end value) = Ok s0 ->
+  areads text false s0 cs ->
+  (0 <? ld_depth (c_ld c)) = false ->
+  normalize_attribute text value c = OutOfFuel \/
+  normalize_attribute text value c =
+    (if valid_utf8_b (norm_attr_chunks cs)
+     then Ok (Doc.Owned (norm_attr_chunks cs), set_ld c (c_ld c))
+     else Panic P_unwrap).
+Proof. exact normalize_attribute_chunks_top. Qed.
+Print Assumptions C05_normalize_attribute_chunks_top.
